@@ -85,7 +85,7 @@ theorem C13_total_rules (key : Bytes) (run) (h : builtin key = some (.fn run)) (
     ∀ w, run e text obj field v ≠ .error (.panic w) := (NP_builtin key run h e text obj field v).np
 
 /-- reversed brackets (`in=)(`) are a rule-writing error -/
-example : (match ruleIn (b! "in=)(") (b! "T") (b! "F") (.str (b! "x")) with
+example : (match ruleIn (fun _ => none) (b! "in=)(") (b! "T") (b! "F") (.str (b! "x")) with
     | .ok t => t == getJoinFieldErr (b! "T") (b! "F") inValErr | _ => false) = true := by decide
 /-- `re='` (nothing after the opening quote) is a rule-writing error -/
 example : isPanic (ruleRe (fun _ => none) (b! "re='") [] [] (.str (b! "x"))) = false := by decide
